@@ -328,6 +328,9 @@ func generateInjectorDecl(metaData *MetaData, injector *Injector, varPool *VarPo
 		// Mark the imports of the requested type as used since it appears in the function signature
 		// (not those of the other types the returned value also has, e.g. the concrete type behind a Bind)
 		markTypeImportsUsed(injector.Return.Return.Type, metaData.Package.Path, metaData.Imports, varPool)
+		for _, imp := range injector.Return.Return.ReferencedImports {
+			imp.IsUsed = true
+		}
 		resultsFields = append(resultsFields, &ast.Field{
 			Type: injector.Return.Return.ASTTypeExpr,
 		})
